@@ -11,6 +11,7 @@ rationals or `null`.  `ws` is a list of rationals or `null` (`weights=None`); `n
 * `{"op":"cat_entropy",…,"hloc":[rat|null…],"hrows":[[rat|null…n]…]}` → entropy form with the
   entropy values of the rows / of `loc` supplied by the caller (`H` is a parameter of the model)
 * `{"op":"mode","ws":…,"n":n,"c":C,"rows":…}` → `counts, loc, unc, counts_unnormalised`
+* `{"op":"check","items":[{"k":…,"tol":…,…},…]}` → `res`: the verified checkers (`C19_checker`) on real outputs
 -/
 
 open Lean DH.Wire DH.Aggregate
@@ -44,8 +45,28 @@ def errName : ArgError → String
   | .emptyInput => "emptyInput"
   | .weightsLength => "weightsLength"
 
+/-- one verified-checker evaluation on real outputs: `{"k":"simplex"|"between"|"unc"|"range"|"totvar", "tol":rat, …}` -/
+def checkItem (j : Json) : Except String Bool := do
+  let k ← (← field j "k").getStr?
+  let tol ← jRat (← field j "tol")
+  match k with
+  | "simplex" => return checkSimplex tol (← jNat (← field j "c")) (← jList jRat (← field j "loc"))
+  | "between" =>
+    return checkBetween tol (← jList jRat (← field j "ws")) (← jList jCell (← field j "ys")) (← jRat (← field j "a"))
+  | "unc" =>
+    return checkUncertainty tol (← jRat (← field j "hi")) (← jRat (← field j "u")) (← jRat (← field j "a"))
+      (← jRat (← field j "e"))
+  | "range" => return checkRange tol (← jRat (← field j "hi")) (← jRat (← field j "u"))
+  | "totvar" =>
+    return checkTotalVariance tol (← jRat (← field j "v")) (← jRat (← field j "a")) (← jRat (← field j "e"))
+  | _ => throw s!"unknown checker {k}"
+
 def handle (j : Json) : Except String Json := do
   let op ← (← field j "op").getStr?
+  if op == "check" then
+    let items ← (← field j "items").getArr?
+    let res ← items.toList.mapM checkItem
+    return Json.mkObj [("ok", true), ("res", ofBools res)]
   let wsIn ← jWeights (fieldD j "ws" .null)
   let n ← jNat (← field j "n")
   match checkArgs wsIn n with
